@@ -894,7 +894,8 @@ pub fn configs(prop: &str, thorough: bool) -> Vec<(Cfg, Option<usize>)> {
                     c.th = Th::Count(3);
                     c.deposit = Dep::Native { amount: 2, refund };
                     c.max_props = if thorough { 3 } else { 2 };
-                    c.kinds = vec![PK::Empty, PK::Pay];
+                    // (PayDeposit: the proposal pays its proposer exactly the deposit, the same message as the refund before it)
+                    c.kinds = vec![PK::Empty, PK::Pay, PK::PayDeposit];
                     c.proposers = vec![0];
                     c.votes = vec![VoteA::Yes, VoteA::No];
                     c.voters_acting = vec![2];
